@@ -5,6 +5,8 @@ HERE = os.path.dirname(os.path.dirname(os.path.abspath(__file__)))
 INFO = {
  'C01-A': ('C01', 'check_parser_consistency() returns the set of ALL short names and try_parse_as_toggle() uses it for the bundle-coverage test', 'a bundle mixing a declared toggle letter with the short name of a value-taking option (-vo): accepted, o dropped'),
  'C01-B': ('C01', 'per-letter bundle check with an is_toggle flag that is never reset', 'a bundle in which an undeclared / option letter sorts after a declared toggle letter (-vx): accepted, x dropped'),
+ 'C02-A': ('C02', 'user_input::value() returns the split-off part whenever the token contains =', 'a value that contains = given as a SEPARATE token (--o k=v, -p =v): everything up to the first = is lost'),
+ 'C02-B': ('C02', 'typed access extracts with std::setbase(0) ("accept 0x...")', 'zero-padded decimal text (010, 0042, 08): read as octal'),
  'C03-A': ('C03', 'toggle::check() asks "given on the command line?" by count instead of by the dirty flag', 'reversible toggle bound to an env variable, --no-<name> on the command line, variable set: environment overrides the command line'),
  'C03-B': ('C03', 'multi_option::check() skips empty elements while splitting the environment value', 'env value with an empty element (a;;b, ;a, ;): elements dropped, or no value at all and the default / required check skipped'),
  'C04-A': ('C04', 'positional branch split: the accepted-count check stays only in the is_value() path', 'surplus positionals behind -- (or after the first positional in greedy mode): accepted'),
@@ -19,6 +21,8 @@ INFO = {
  'C08-B': ('C08', 'early return of the raw format when no arguments were supplied', 'a format with placeholders rendered with zero arguments: no exception'),
  'C09-A': ('C09', 'stdout_mt flushes after releasing the lock', 'two threads, a stream buffer whose sync() shares state with its write path, the flush of one thread interleaving with the insertion of another'),
  'C09-B': ('C09', 'StdErrThreaded uses try_lock() and ignores the result for fatal records', 'a fatal-severity record arriving while another thread holds the mutex'),
+ 'C10-A': ('C10', 'rvalue operator<< overloads delegate to the lvalue ones; the callable is invoked before the guard', 'one-expression statement, rejected by the runtime filter, with a streamed callable'),
+ 'C10-B': ('C10', 'filter verdict cached per severity in a function-local static', 'statement of severity S, runtime threshold changed, another statement of severity S'),
  'C11-A': ('C11', 'polarity conflict check skipped for the short spelling', '--no-<name> followed by a short token containing the letter, in that order'),
  'C11-B': ('C11', 'env word normalised by lower-casing when the first character is upper-case', 'mixed-case variants of documented words (TRue, OFf): accepted instead of rejected'),
  'C12-A': ('C12', 'first -- always swallowed, even after greedy mode switched to positionals', 'greedy mode, a positional before the first --: that -- disappears from positionals()'),
@@ -27,6 +31,10 @@ INFO = {
  'C13-B': ('C13', 'declaration methods emplace first and raise afterwards without removing the element', 'a rejected re-declaration is caught by the caller and repeated: accepted the second time, the left-over object answers to its letter'),
  'C14-A': ('C14', 'multi_option::check() moves the default list out (std::move(*default_))', 'a multi_option with a non-empty default, two parses in which it is not given'),
  'C14-B': ('C14', 'prepare_options() skipped while a pristine_ flag is set, flag only cleared after a successful parse', 'the first parse on the object fails after option state was written, then another parse'),
+ 'C15-A': ('C15', 'format_padded initialises the free space of the first line as if the text started left of the pad column', 'an entry whose spelling is wider than 40 columns with a description that has to wrap: first line up to 40 columns too wide'),
+ 'C15-B': ('C15', 'format_default() of option / multi_option suppresses an empty default', 'option with default_value(""): the (default: ) hint is missing'),
+ 'C16-A': ('C16', 'hash of float / double through the object representation instead of std::hash', 'a floating-point component that is -0.0 in one value and +0.0 in the other'),
+ 'C16-B': ('C16', 'integral hash through a 32-bit mixer (fmix32)', '64-bit integer components that differ only in the upper 32 bits'),
  'C17-A': ('C17', 'split fast path "needle does not fit" written with >= instead of >', 'haystack equal to the non-empty needle'),
  'C17-B': ('C17', 'replace_all rebuilt with a second buffer, next search starts at pos + 1', 'a self-overlapping pattern whose occurrences overlap in the input (a---b, --)'),
  'C18-A': ('C18', 'hand-written move assignment installs the incoming deleter before destroying the old pointee', 'move-assign onto a pointer that owns an object of a DIFFERENT type'),
